@@ -2,7 +2,11 @@ import json,sys
 props={json.loads(l)['id']:json.loads(l) for l in open('/verif/properties.jsonl')}
 pid=sys.argv[1]; p=props[pid]
 wt=sys.argv[2] if len(sys.argv)>2 else f"{wt}"
-prev=open(f"/verif/seeded/{pid}/notes.md").read()[:1500] if len(sys.argv)>2 else ""
+import glob
+prev=""
+if len(sys.argv)>2:
+    for k,f in enumerate(sorted(glob.glob(f"/verif/seeded/{pid}*/notes.md"))):
+        prev+=f"[previous change {k+1}]\n"+open(f).read()[:1300]+"\n"
 print(f"""You are testing how robust a verification effort is. You work ONLY inside the scratch git worktree {wt} (a checkout of the mitmproxy repository, Python; run things with /venv/bin/python and PYTHONPATH={wt}, cwd {wt}; the sandbox is offline). Do NOT read or touch /verif or /repo or any other directory; do not commit.
 
 Property that the software is supposed to satisfy:
@@ -12,7 +16,7 @@ Property that the software is supposed to satisfy:
 
 Task: make ONE small, realistic change to the mitmproxy source (under mitmproxy/, not tests) that BREAKS this property while the code still imports and the EXISTING test suite still passes (run the relevant existing tests, e.g. `PYTHONPATH={wt} /venv/bin/python -m pytest -q -p no:cacheprovider -x <relevant test files> -n 4`, and make sure they pass WITH your change). The change should look like a plausible regression a developer could introduce (a refactoring slip, an off-by-one, a dropped condition, a wrong default, two sites that each look fine alone), and it must need something specific to manifest — a particular interleaving, a fault at a particular point, a multi-step sequence of operations, an unusual input — NOT something ordinary use would expose at once.
 
-{("A previous tester already seeded the change described below for this property. Choose a DIFFERENT mechanism: another function, another clause of the property, another trigger (prefer triggers that need an interleaving, a fault at a particular point, or a multi-step history). Previous change (do NOT repeat it or a close variant):" + chr(10) + "-----" + chr(10) + prev + chr(10) + "-----" + chr(10)) if prev else ""}
+{("Previous testers already seeded the change(s) described below for this property. Choose a DIFFERENT mechanism: another function, another clause of the property, another trigger (prefer triggers that need an interleaving, a fault at a particular point, or a multi-step history). Previous changes (do NOT repeat them or close variants):" + chr(10) + "-----" + chr(10) + prev + chr(10) + "-----" + chr(10)) if prev else ""}
 Deliverables, all inside {wt}/_seed/ :
   1. patch.diff  — `git diff` of your change (source only).
   2. demo.py (or demo_test.py) — a small self-contained program that exits 0/passes on the ORIGINAL code and fails (non-zero exit / assertion) WITH your change, demonstrating the property violation. Verify both directions yourself (use `git stash` / `git stash pop` or apply/revert the patch).
